@@ -361,5 +361,12 @@ def pool_map(fn, items, procs=None, chunksize=None):
     if procs <= 1 or len(items) < 2:
         return [fn(x) for x in items]
     ctx = mp.get_context("fork")
-    with ctx.Pool(procs) as pool:
-        return pool.map(fn, items, chunksize or max(1, len(items) // (procs * 8)))
+    pool = ctx.Pool(procs)
+    try:
+        res = pool.map(fn, items, chunksize or max(1, len(items) // (procs * 8)))
+        pool.close()            # (not terminate: workers flush coverage data, bin/covrun)
+        pool.join()
+        return res
+    except BaseException:
+        pool.terminate()
+        raise
